@@ -180,6 +180,8 @@ func init() {
 		func(w *SrvWorld, r *RunResult) { r.Nontrivial = c10Nontrivial(w) }))
 	register(lifeFamily("C17", "c17-idle-burst", 1, GenC17IdleBurst, nil, c17Final,
 		func(w *SrvWorld, r *RunResult) { r.Nontrivial = c17Nontrivial(w) }))
+	register(lifeFamily("C17", "c17-many-handlers", 1, GenC17ManyHandlers, nil, c17Final,
+		func(w *SrvWorld, r *RunResult) { r.Nontrivial = c17Nontrivial(w) }))
 	register(lifeFamily("C17", "c17", 4, GenC17, nil, c17Final,
 		func(w *SrvWorld, r *RunResult) { r.Nontrivial = c17Nontrivial(w) }))
 	register(srvFamily("C01", "c01", 1, GenC01, c01Online,
